@@ -962,6 +962,9 @@ macro_rules! maps {
             "btree" => Some(Box::new(Interp::<$t, $n, BTreeMap<usize, $t>>::new()) as Box<dyn Runner>),
             "vec" => Some(Box::new(Interp::<$t, $n, VecMap<$t>>::new()) as Box<dyn Runner>),
             "maxvec" => Some(Box::new(Interp::<$t, $n, MaxMap<VecMap<$t>>>::new()) as Box<dyn Runner>),
+            // `MaxMap` is generic over the inner map; the model treats this like `maxvec` (same
+            // get / insert / range / max_index semantics)
+            "maxbtree" => Some(Box::new(Interp::<$t, $n, MaxMap<BTreeMap<usize, $t>>>::new()) as Box<dyn Runner>),
             _ => None,
         }
     };
